@@ -62,6 +62,9 @@ func c01(w *core.World, r *core.Report) {
 		ruleSenderRemovals(w, r, c)
 	}
 
+	r.Rule("R01.11", "the database filter never removes a transaction bracket: a command dropped for the filtered database alone is known to be neither MULTI nor EXEC", 1)
+	ruleBypassKeepsBrackets(w, r)
+
 	r.Rule("R01.6", "database mapping is decided in selectDB only; SELECT is emitted on its changed edge with its result", 4)
 	ruleDbMapping(w, r)
 	ruleDbTracking(w, r)
